@@ -124,3 +124,82 @@ def custom_meta_roundtrip(doc):
     if got != value:
         return f'get_custom_meta returned {got!r}, recorded {value!r}'
     return None
+
+
+# ---------------------------------------------------------------------------------------------------- C15
+def _d4_selected(tree, include, exclude, prefix=''):
+    """DESIGN D.4 reference semantics on a nested dict tree (leaf = None, namespace = dict): the selected paths"""
+    def below_or_equal(rule, path):  # rule names path or an ancestor of it (component-wise)
+        return path == rule or path.startswith(rule + '.')
+
+    out = set()
+    for name, sub in tree.items():
+        path = prefix + name
+        if exclude is not None and any(below_or_equal(r, path) for r in exclude):
+            continue
+        if sub is None:
+            if include is None or not include or any(below_or_equal(r, path) for r in include):
+                out.add(path)
+        else:
+            whole = include is None or not include or any(below_or_equal(r, path) for r in include)
+            if whole:
+                out |= _d4_selected(sub, None, exclude, path + '.')
+                out.add(path)
+            elif any(r.startswith(path + '.') for r in include):
+                out |= _d4_selected(sub, include, exclude, path + '.')
+                out.add(path)
+    return out
+
+
+def _build_ns(tree, name=''):
+    from plumpy.ports import InputPort, PortNamespace
+    ns = PortNamespace(name)
+    for k, sub in tree.items():
+        ns[k] = InputPort(k) if sub is None else _build_ns(sub, k)
+    return ns
+
+
+def _paths(ns, prefix=''):
+    from plumpy.ports import PortNamespace
+    out = set()
+    for k, p in ns.items():
+        out.add(prefix + k)
+        if isinstance(p, PortNamespace):
+            out |= _paths(p, prefix + k + '.')
+    return out
+
+
+def absorb_selection(doc):
+    """Replay / bounded search for PortNamespace.absorb: the counter-model's rule lists first, then every rule set of at
+    most two rules over small source trees whose names are string prefixes of one another."""
+    from plumpy.ports import PortNamespace
+
+    inp = _inputs(doc)
+    trees = [
+        {'base': {'a': None, 'z': None}, 'base2': {'z': None, 'y': None}, 'c': None},
+        {'a': {'b': {'c': None, 'd': None}, 'bb': None}, 'ab': None},
+    ]
+    cands = []
+    for key in ('include', 'exclude'):
+        v = inp.get(key)
+        if isinstance(v, (list, tuple)) and v and all(isinstance(x, str) for x in v):
+            cands.append((key, list(v)))
+    import itertools
+    for tree in trees:
+        allp = sorted(_paths(_build_ns(tree)))
+        rulesets = [[p] for p in allp] + [list(c) for c in itertools.combinations(allp, 2)
+                                           if not (c[1].startswith(c[0] + '.') or c[0].startswith(c[1] + '.'))]
+        for key, rules in cands + [(k, r) for k in ('include', 'exclude') for r in rulesets]:
+            src = _build_ns(tree)
+            dst = PortNamespace('dst')
+            kw = {key: rules}
+            try:
+                dst.absorb(src, **kw)
+            except Exception as e:  # noqa
+                continue
+            got = _paths(dst)
+            want = _d4_selected(tree, kw.get('include'), kw.get('exclude'))
+            if got != want:
+                return (f'absorb(source={tree}, {key}={rules}) exposed {sorted(got)}; the rules select {sorted(want)} '
+                        f'(extra {sorted(got - want)}, missing {sorted(want - got)})')
+    return None
